@@ -27,7 +27,15 @@ func init() {
 	register(&Harness{Name: "c09", Property: "C09", Jobs: c09Jobs, Run: c09Run})
 }
 
-var c09ListOps = []string{"append", "set", "reverse", "concat", "concatL", "top", "skip", "map", "order", "first", "evalmeth", "appendappend"}
+var c09ListOps = []string{"append", "set", "reverse", "concat", "concatL", "top", "skip", "map", "order", "first", "evalmeth", "appendappend", "number", "combine", "readonly"}
+
+// read-only uses of a list: whatever they return, the list they were applied to stays as it is
+var c09ReadOnly = []string{
+	`l ~ (l+[x])`, `l.top(2) ~ l`, `l.orderRev(e->e).size()`, `l.orderLess((p,q)->p<q).size()`, `l.groupByInt(e->e%2).size()`, `l.uniqueInt(e->e).size()`, `l.minMax(e->e).valid`, `l.number((i,e)->i).size()`,
+	`[x] ~ l`, `l.skip(1) ~ (l+l)`, `l = l.map(e->e)`, `l.reduce((p,q)->p+q)`, `l.indexWhere(e->e=x)`,
+	`l.combine((p,q)->p).size()`, `l.iir(e->e,(e,o)->o).size()`, `l.visit(0,(v,e)->v+e)`, `l.present(e->e=x)`, `l.last()`, `x ~ l`, `l.cross(l,(p,q)->p).size()`,
+	`l.merge(l,(p,q)->p<q).size()`, `l.multiUse({a:t->t.size(),b:t->t.top(1).size()}).a`, `l.compact((p,q)->p=q).size()`, `l.mapReduce(0,(s,e)->s+e)`, `l.sum()`,
+}
 var c09MapOps = []string{"put", "replaceIn", "replaceOut", "merge", "eval", "map", "accept", "putput"}
 
 func c09Jobs(tier string, seed int64) []string {
@@ -226,6 +234,26 @@ func c09ListHistory(fg *value.FunctionGenerator, steps, first int) {
 			for _, e := range p.model {
 				nm = append(nm, e.(value.Int)+x)
 			}
+		case "number":
+			r = eval(mustGen(fg, "l.number((i,e)->e+i*x)", "l", "x"), p.v, x)
+			for i, e := range p.model {
+				nm = append(nm, e.(value.Int)+value.Int(i)*x)
+			}
+		case "combine":
+			r = eval(mustGen(fg, "l.combine((p,q)->p*x+q)", "l", "x"), p.v, x)
+			for i := 0; i+1 < len(p.model); i++ {
+				nm = append(nm, p.model[i].(value.Int)*x+p.model[i+1].(value.Int))
+			}
+		case "readonly":
+			// quick: the first 8 (the copying ones first); thorough: all
+			nro := 8
+			if steps >= 3 {
+				nro = len(c09ReadOnly)
+			}
+			ro := c09ReadOnly[sym.Choice("ro"+strconv.Itoa(s), nro)]
+			rr := eval(mustGen(fg, ro, "l", "x"), p.v, x)
+			sym.Assert(!rr.panicked, "read-only-use-no-panic")
+			continue
 		case "order":
 			// the new list is not modelled (sorting symbolic values); the parent must stay as it is
 			r = eval(mustGen(fg, "l.order(e->e).size()", "l"), p.v)
